@@ -13,6 +13,16 @@ from .errors import SerifTypeError
 from .errors import SerifIndexError
 
 
+def _key_text(key) -> str:
+	"""A join key as it appears in an error message; a key whose text cannot be produced (an int
+	beyond the int-to-str digit limit, a failing __repr__) is named by the types of its cells."""
+	try:
+		return str(key)
+	except Exception:
+		cells = key if isinstance(key, tuple) else (key,)
+		return "(" + ", ".join(f"<{type(c).__name__}>" for c in cells) + ")"
+
+
 def _missing_col_error(name, context="Table"):
 	return SerifKeyError(f"Column '{name}' not found in {context}")
 
@@ -1280,7 +1290,7 @@ class Table(Vector):
 			example_key, example_indices = next(iter(duplicates.items()))
 			raise SerifValueError(
 				f"Join expectation '{expect}' violated: Right side has duplicate keys.\n"
-				f"Example: {example_key} appears {len(example_indices)} times."
+				f"Example: {_key_text(example_key)} appears {len(example_indices)} times."
 			)
 		
 		# ------------------------------------------------------------------
@@ -1308,7 +1318,7 @@ class Table(Vector):
 			if check_left_unique:
 				if key in left_keys_seen:
 					raise SerifValueError(
-						f"Join expectation '{expect}' violated: Left side has duplicate key {key}"
+						f"Join expectation '{expect}' violated: Left side has duplicate key {_key_text(key)}"
 					)
 				left_keys_seen.add(key)
 			
@@ -1415,7 +1425,7 @@ class Table(Vector):
 			example_key, example_indices = next(iter(duplicates.items()))
 			raise SerifValueError(
 				f"Join expectation '{expect}' violated: Right side has duplicate keys.\n"
-				f"Found at least {len(duplicates)} duplicate key(s), e.g., {example_key} "
+				f"Found at least {len(duplicates)} duplicate key(s), e.g., {_key_text(example_key)} "
 				f"appears {len(example_indices)} times."
 			)
 		
@@ -1443,7 +1453,7 @@ class Table(Vector):
 			if check_left_unique:
 				if key in left_keys_seen:
 					raise SerifValueError(
-						f"Join expectation '{expect}' violated: Left side has duplicate key {key}"
+						f"Join expectation '{expect}' violated: Left side has duplicate key {_key_text(key)}"
 					)
 				left_keys_seen.add(key)
 			
@@ -1563,7 +1573,7 @@ class Table(Vector):
 			example_key, example_inds = next(iter(duplicates.items()))
 			raise SerifValueError(
 				f"Join expectation '{expect}' violated: Right side has duplicate keys.\n"
-				f"Example: {example_key} appears {len(example_inds)} times."
+				f"Example: {_key_text(example_key)} appears {len(example_inds)} times."
 			)
 		
 		# ------------------------------------------------------------------
@@ -1598,7 +1608,7 @@ class Table(Vector):
 			if check_left_unique:
 				if key in left_keys_seen:
 					raise SerifValueError(
-						f"Join expectation '{expect}' violated: Left side has duplicate key {key}"
+						f"Join expectation '{expect}' violated: Left side has duplicate key {_key_text(key)}"
 					)
 				left_keys_seen.add(key)
 			
